@@ -381,6 +381,33 @@ example : checkBad ({ batches := [(1, [[0], [1]]), (2, [[2], [3]]), (3, [[4]])],
     = .ok ({ batches := [(1, [[0], [1]]), (2, [[2], [3]]), (3, [[4]])], results := [(2, .good [8, 9])] }, [1, 3]) := by
   rfl
 
+/-! ### before the first sow, after a complete reap, and through another handle -/
+
+/-- **nothing sown ⇒ nothing ready**: with no crop directory (never sown, or removed by a complete reap) or no
+information file, the counts are the "unknown" value and the crop is not ready to reap -/
+theorem c08_unsown_not_ready (s : St β) (h : s.dir = none ∨ ∃ d, s.dir = some d ∧ d.info = none) :
+    (isReady s).2 = false ∧ (calcProgress s).2.sown = -1 ∧ (calcProgress s).2.results = -1 := by
+  have hg : Gen.isReady (-1) (-1) = false := by decide
+  rcases h with h | ⟨d, hd, hi⟩
+  · simp [isReady, calcProgress, h, hg]
+  · simp [isReady, calcProgress, hd, hi, hg]
+
+/-- **the handle does not matter**: once the crop is sown, every progress query answers from the directory, whatever
+the asking `Crop` object had loaded before (a handle made before the sow, in another process, …) -/
+theorem c08_handle_irrelevant (s : St β) (o : Obj) (d : Dir β) (hd : s.dir = some d) (hinfo : d.info.isSome = true) :
+    (calcProgress { s with obj := o }).2 = (calcProgress s).2 ∧
+    (isReady { s with obj := o }).2 = (isReady s).2 ∧
+    (missingResults { s with obj := o }).2 = (missingResults s).2 := by
+  obtain ⟨i, hi⟩ := Option.isSome_iff_exists.mp hinfo
+  cases d with
+  | mk info batches results =>
+    simp only at hi
+    subst hi
+    refine ⟨?_, ?_, ?_⟩
+    · simp [calcProgress, hd]
+    · simp [isReady, calcProgress, hd]
+    · simp [missingResults, calcProgress, hd, syncFromDisk, hasResult]
+
 /-! Non-vacuity -/
 example : WF ({ batches := [(1, [[0]]), (2, [[1]])], results := [(2, .good [7])] } : Dir Nat) 2 := by
   refine ⟨by decide, ?_, by decide, ?_⟩
